@@ -137,6 +137,24 @@ theorem commit_wait_strict (waitUntil maxSleepNs : Nat) (script : List Nat) (ts 
         · simp at h
         · exact commitLoop_strict _ _ _ _ _ _ _ h
 
+/-- Every commit path obeys the commit-wait constraint, for every PD script: whichever mode commits (ordinary 2PC,
+    async commit, 1PC — with or without causal consistency —, pipelined), whatever the store does (accepts, rejects
+    the first commit with CommitTsExpired, makes async commit / 1PC fall back to 2PC) and whatever PD returns, a commit
+    that succeeds does so at a timestamp strictly above the constraint, and the `min_commit_ts` sent with the prewrites
+    of an async-commit / 1PC transaction is strictly above it too; otherwise Commit fails. -/
+theorem commit_path_obeys_wait (mode : CMode) (causal : Bool) (beh : StoreBeh) (startTS c maxSleepNs : Nat)
+    (script : List Nat) :
+    CommitWaitSpec mode c (commitTxn mode causal beh startTS c maxSleepNs script) :=
+  commitTxn_spec mode causal beh startTS c maxSleepNs script
+
+/-- the same, spelled out for a successful commit -/
+theorem commit_path_ts_above_constraint (mode : CMode) (causal : Bool) (beh : StoreBeh) (startTS c maxSleepNs : Nat)
+    (script : List Nat) (commitTS minSent : Nat)
+    (h : commitTxn mode causal beh startTS c maxSleepNs script = .ok commitTS minSent) : commitTS > c := by
+  have := commitTxn_spec mode causal beh startTS c maxSleepNs script
+  rw [h] at this
+  exact this.1
+
 /-- Validation accepts every timestamp PD had issued before the call: if `rd ≤` PD's maximum when
     `ValidateReadTS(rd)` is called, the call is never answered with ErrFutureTSRead, whatever the other
     callers do, whichever flight it joins and in whatever order PD's responses arrive.
@@ -310,6 +328,15 @@ example : ((run (init 10) (cancelStarter ++ .startVal 4 12 :: cancelStarterRest)
     ∧ ((run (init 10) (cancelStarter ++ .startVal 4 12 :: cancelStarterRest)).thr 2).pc = .vCancelled := by decide
 -- a GetTimestamp call cancelled while its request is at PD
 example : ((run (init 10) [.startGet 0, .run 0 0, .pdIssue 0 0, .cancel 0, .abort 0]).thr 0).pc = .gCancelled := by decide
+
+-- commit paths: pipelined waits for PD to pass the constraint; a CommitTsExpired retry waits again; async commit sends
+-- min_commit_ts above the constraint; a fallback fetches a second time; a far-ahead constraint fails
+example : commitTxn .pipelined false .normal 5 100 1000000000 [50, 80, 120] = .ok 120 0 := by decide
+example : commitTxn .twoPC false .expired 5 100 1000000000 [120, 90, 130] = .ok 130 0 := by decide
+example : commitTxn .async false .normal 5 100 1000000000 [50, 120] = .ok 121 121 := by decide
+example : commitTxn .onePC true .fallback 5 0 1000000000 [7] = .ok 7 6 := by decide
+example : commitTxn .async true .fallback 5 100 1000000000 [120, 90, 101] = .ok 101 121 := by decide
+example : commitTxn .pipelined false .normal 5 (composeTS 5000 0) 1000000000 [composeTS 1000 0] = .err .errDrift := by decide
 
 -- interval_bounds: a recovering step inside the bounds
 example : intervalOk 2000000000 600000000 := by unfold intervalOk; decide
